@@ -732,9 +732,45 @@ def small_inputs(alpha: str, max_len: int):
 # ---------------------------------------------------------------- worker
 
 
+COVERED_FILES = ["grammar/expressions/sequence.py", "grammar/expressions/choice.py", "grammar/expressions/postfix.py",
+                 "grammar/expressions/prefix.py", "grammar/expressions/terminals.py", "grammar/expressions/group.py",
+                 "grammar/rule.py", "grammar/rules/special.py", "grammar/expression.py", "state.py", "stack.py",
+                 "checkpoint_int.py", "parser.py", "grammar/optimizer.py", "grammar/optimizers/unroller.py",
+                 "grammar/optimizers/skippers.py", "grammar/optimizers/squash_choice.py", "grammar/optimizers/inliners.py",
+                 "grammar/codegen/generate.py"]
+
+
 def worker(job):
     prop, shard, n_random, tier, sd, do_bundled = job
     use_repo()
+    cov = None
+    if tier == "thorough" and shard < 4:
+        try:
+            import coverage
+            cov = coverage.Coverage(data_file=None, include=[str(REPO / "src" / "pest" / f) for f in COVERED_FILES])
+            cov.start()
+        except Exception:  # noqa: BLE001
+            cov = None
+    try:
+        res = _worker(job)
+    finally:
+        if cov is not None:
+            cov.stop()
+    if cov is not None:
+        lines = {}
+        data = cov.get_data()
+        for f in data.measured_files():
+            try:
+                _, stmts, _, missing, _ = cov.analysis2(f)
+                lines[str(Path(f).relative_to(REPO / "src" / "pest"))] = (sorted(set(stmts) - set(missing)), len(stmts))
+            except Exception:  # noqa: BLE001, S112
+                continue
+        res["lines"] = lines
+    return res
+
+
+def _worker(job):
+    prop, shard, n_random, tier, sd, do_bundled = job
     signal.signal(signal.SIGALRM, _alarm)
     rng = random.Random((sd * 1000003 + shard * 7919 + hash(prop) % 1000) & 0xFFFFFFFF)
     plan = PLANS[prop]
@@ -783,6 +819,66 @@ def worker(job):
                 eval_grammar(prop, rng, "bundled:" + gfile, gtext, None, passes, cases, out)
             except Timeout:
                 out["timeouts"].append({"group": "bundled:" + gfile, "grammar": gtext[:200], "passes": passes})
+            finally:
+                signal.alarm(0)
+    if prop == "C05" or (tier == "thorough" and prop in ("C01", "C07")):
+        # stack/backtracking templates x every input over {a, b, !} up to a small length
+        inputs = small_inputs("ab!", 6 if tier == "thorough" else 5)
+        for _ in range(12 if tier == "thorough" else 3):
+            for _try in range(50):
+                rules = G.gen_stack_template(rng)
+                if G.well_formed(rules):
+                    break
+            else:
+                continue
+            gtext = G.show_grammar(rules)
+            cases = [("r", t, 0) for t in inputs]
+            signal.alarm(120)
+            try:
+                eval_grammar(prop, rng, "stack-template", gtext, rules, choose_passes(rng, rng.randrange(2)), cases, out)
+                out["stats"]["stack_template_grammars"] += 1
+            except Timeout:
+                out["timeouts"].append({"group": "stack-template", "grammar": gtext, "passes": list(PASS_NAMES)})
+            finally:
+                signal.alarm(0)
+    if prop == "C05" or (tier == "thorough" and prop in ("C01", "C07")):
+        # "the accepted input is the stack": non-consuming manipulations undone by a catch point, then PEEK_ALL ~ EOI
+        inputs2 = small_inputs("abxy", 5 if tier == "thorough" else 4)
+        for _ in range(40 if tier == "thorough" else 10):
+            rules = G.gen_stack_template2(rng)
+            if not G.well_formed(rules):
+                continue
+            gtext = G.show_grammar(rules)
+            signal.alarm(120)
+            try:
+                eval_grammar(prop, rng, "stack-readout", gtext, rules, choose_passes(rng, rng.randrange(2)),
+                             [("r", t, 0) for t in inputs2], out)
+                out["stats"]["stack_readout_grammars"] += 1
+            except Timeout:
+                out["timeouts"].append({"group": "stack-readout", "grammar": gtext, "passes": list(PASS_NAMES)})
+            finally:
+                signal.alarm(0)
+    if prop == "C05":
+        # every balanced history of push / drop / [commit] / [abort] up to a length, as a grammar whose accepted
+        # input is the resulting stack (C09's history space, at the level of the operators' checkpoints)
+        hists = G.balanced_histories(9 if tier == "thorough" else 8)
+        nsh = do_bundled[1] if do_bundled else NCPU
+        for j, h in enumerate(hists):
+            if j % nsh != shard:
+                continue
+            rules = G.history_grammar(h)
+            gtext = G.show_grammar(rules)
+            exp, noundo = G.history_contents(h)
+            cands = {x for x in (exp, noundo, "cba", "ba", "") if x is not None}
+            if exp:
+                cands |= {exp[1:], exp + "a", "x" + exp}
+            signal.alarm(60)
+            try:
+                eval_grammar(prop, rng, "stack-history", gtext, rules, list(PASS_NAMES) if j % 2 else [],
+                             [("r", t, 0) for t in sorted(cands)], out)
+                out["stats"]["stack_history_grammars"] += 1
+            except Timeout:
+                out["timeouts"].append({"group": "stack-history", "grammar": gtext, "passes": list(PASS_NAMES)})
             finally:
                 signal.alarm(0)
     if tier == "thorough" and prop in ("C01", "C03", "C04", "C02"):
@@ -919,8 +1015,12 @@ def run_prop(out: Outcome, level_when_proved: str = "proof") -> None:
     stats = collections.Counter()
     corr, direct, load_errors, timeouts = [], [], [], []
     n_corr = n_direct = 0
+    line_cov: dict = {}
     with mp.Pool(nshards) as pool:
         for r in pool.imap_unordered(worker, jobs):
+            for f, (hit, total) in r.get("lines", {}).items():
+                cur = line_cov.setdefault(f, [set(), total])
+                cur[0] |= set(hit)
             stats.update(r["stats"])
             corr += r["corr"]
             direct += r["direct"]
@@ -999,6 +1099,8 @@ def run_prop(out: Outcome, level_when_proved: str = "proof") -> None:
         "timeouts": len(timeouts),
         "load_errors": len(load_errors),
         "outcome_distribution": {k: int(v) for k, v in sorted(stats.items())},
+        **({"source_statement_coverage_of_mirrored_python": {f: f"{len(h)}/{t}" for f, (h, t) in sorted(line_cov.items())}}
+           if line_cov else {}),
     }
     out.assumptions = [
         "grammars are filtered by a Python well-formedness check (no left recursion, no repetition over a nullable body)",
